@@ -1004,3 +1004,23 @@ Example C17_log_float_domain_example :
   f64_pos_ok (3 # 1000) = true /\ f64_pos_ok 2000 = true /\
   log_ticks_pos 10 (log_exps 10 3 45) 3 45 false (-1) = [3; 4; 5; 6; 7; 8; 9; 10; 20; 30; 40]%Q.
 Proof. vm_compute. repeat split; reflexivity. Qed.
+
+(* (group hM) With the REAL-valued slack rule of log.go:118-128 the rounding-out exponent of an end that Nice left
+   in place is the same for the niced domain (the slack only grows when the other end moves outwards), and an end
+   that landed on an integer exponent rounds out to it again: lmin, lmax = logarithms of the ends to the effective
+   base, s = 1e-10, c = the exponent the unmoved end lies within the slack of, lmax' / lmin' = the other end after
+   Nice.  (1) floor (lmin + s (lmax' - lmin)) = c; (2) ceil (lmax - s (lmax - lmin')) = c; (3) floor (H + slack) =
+   ceil (H - slack) = H for 0 <= slack < 1.  So the model's non-idempotence where the re-taken decision is N_border
+   (C17_log_nice_model_not_idempotent_refuted) is an artefact of its three-valued decision, not of the rule. *)
+From MM Require Import Proofs.TicksLogNiceR.
+Theorem C17_real_slack_rule_is_stable :
+  (forall (s lmin lmax lmax' : R) (c : Z), (0 <= s)%R -> (lmax <= lmax')%R -> (s * (lmax' - lmin) < 1)%R ->
+     (lmin <= IZR c)%R -> (IZR c - lmin <= s * (lmax - lmin))%R ->
+     forall n : Z, (IZR n <= lmin + s * (lmax' - lmin))%R <-> n <= c) /\
+  (forall (s lmin lmin' lmax : R) (c : Z), (0 <= s)%R -> (lmin' <= lmin)%R -> (s * (lmax - lmin') < 1)%R ->
+     (IZR c <= lmax)%R -> (lmax - IZR c <= s * (lmax - lmin))%R ->
+     forall n : Z, (lmax - s * (lmax - lmin') <= IZR n)%R <-> c <= n) /\
+  (forall (slack : R) (H : Z), (0 <= slack < 1)%R ->
+     (forall n : Z, (IZR n <= IZR H + slack)%R <-> n <= H) /\ (forall n : Z, (IZR H - slack <= IZR n)%R <-> H <= n)).
+Proof. exact slack_rule_stable. Qed.
+Print Assumptions C17_real_slack_rule_is_stable.
